@@ -47,9 +47,101 @@ def blocks(path):
         out.append((name, src[cstart:end].strip() + "\n"))
     return header, out
 
+def restate(path):
+    """theorem files whose proofs are inline (KVW/Thm_*.v): re-state every Theorem/Corollary with its binders
+    and close it with `exact (name binders)`"""
+    src = open(path).read()
+    out = []
+    # section variables in force at each position
+    events = []
+    for m in re.finditer(r"^Section\s+(\w+)\.|^End\s+(\w+)\.|^(?:Variable|Variables|Context|Hypothesis|Hypotheses)\s+(.*?)\.\s*$", src, re.M):
+        events.append((m.start(), m))
+    def secvars(pos):
+        stack = [[]]
+        for st, m in events:
+            if st > pos:
+                break
+            if m.group(1):
+                stack.append([])
+            elif m.group(2):
+                if len(stack) > 1:
+                    stack.pop()
+            else:
+                decl = m.group(3).strip()
+                if decl.startswith("("):
+                    for b in re.findall(r"\(([^()]*)\)", decl):
+                        stack[-1].append("(" + b + ")")
+                else:
+                    stack[-1].append("(" + decl + ")")
+        return [v for lvl in stack for v in lvl]
+    for m in re.finditer(r"^(Theorem|Corollary|Lemma)\s+([A-Za-z0-9_']+)(.*?)\nProof\.", src, re.M | re.S):
+        kind, name, rest = m.group(1), m.group(2), m.group(3)
+        sv = secvars(m.start())
+        # split binders from statement at the first top-level " :"
+        depth, cut = 0, None
+        for i, ch in enumerate(rest):
+            if ch in "([{":
+                depth += 1
+            elif ch in ")]}":
+                depth -= 1
+            elif ch == ":" and depth == 0 and rest[i:i + 2] != ":=":
+                cut = i
+                break
+        if cut is None:
+            continue
+        binders, stmt = rest[:cut], rest[cut + 1:].strip()
+        assert stmt.endswith("."), name
+        names = []
+        for tok in re.findall(r"\([^()]*\)|\{[^{}]*\}|[A-Za-z_][A-Za-z0-9_']*", binders):
+            if tok[0] == "(":
+                names += re.findall(r"[A-Za-z_][A-Za-z0-9_']*", tok[1:tok.index(":")] if ":" in tok else tok[1:-1])
+            elif tok[0] == "{":
+                continue
+            else:
+                names.append(tok)
+        # comment directly above
+        pre = src[:m.start()].rstrip()
+        comment = ""
+        if pre.endswith("*)"):
+            i = pre.rfind("(*")
+            if i >= 0 and "\n\n" not in pre[i:]:
+                comment = pre[i:] + "\n"
+        svnames = []
+        for b in sv:
+            svnames += re.findall(r"[A-Za-z_][A-Za-z0-9_']*", b[1:b.index(":")])
+        args = "".join(" " + n for n in names)
+        if sv:
+            import itertools
+            alts = []
+            for r in range(len(svnames), -1, -1):
+                for sub in itertools.combinations(svnames, r):
+                    alts.append("exact (%s%s%s)" % (name, "".join(" " + n for n in sub), args))
+            proof = "first [" + " | ".join(alts) + "]"
+        else:
+            proof = "exact (%s%s)" % (name, args)
+        body = "%sTheorem %s%s%s :\n  %s\nProof. %s. Qed.\nPrint Assumptions %s.\n" % (
+            comment, name, "".join(" " + b for b in sv), binders.rstrip(), stmt, proof, name)
+        out.append((name, body))
+    return out
+
+
 def main():
-    sources = {k: os.path.join(COQ, "Props", k + ".v") for k in ("SQLM", "KVM", "KVW")}
+    import glob
+    sources = {k: os.path.join(COQ, "Props", k + ".v") for k in ("SQLM", "KVM", "KVW", "RELAY")}
     parsed = {k: blocks(p) for k, p in sources.items() if os.path.exists(p)}
+    if "KVW" in parsed:
+        bl = []
+        mods = []
+        for f in sorted(glob.glob(os.path.join(COQ, "KVW", "Thm_*.v"))):
+            bl += restate(f)
+            mods.append("KVW." + os.path.basename(f)[:-2])
+            h = re.sub(r"\(\*.*?\*\)", "", open(f).read(), flags=re.S)
+            for m in re.finditer(r"From\s+NR\s+Require\s+(?:Import|Export)\s+(.*?)\.(?=\s)", h, re.S):
+                for mod in m.group(1).split():
+                    if mod not in mods:
+                        mods.append(mod)
+        hdr = "From NR Require Import %s.\nOpen Scope list_scope. Open Scope Z_scope.\n" % " ".join(mods)
+        parsed["KVW"] = (hdr, bl)
     for pid, title in TITLES.items():
         parts, hdrs, used = [], [], []
         for k, (hdr, bl) in parsed.items():
@@ -59,7 +151,7 @@ def main():
             used.append(k)
             hdrs.append(hdr)
             support = [b for n, b in bl if n.startswith(k + "_") or n.startswith("scanner_") or n.startswith("KVM_") and k == "KVM"]
-            parts.append("(* ================= %s backend (%s) ================= *)\n" % ({"SQLM": "SQL", "KVM": "LMDB query path", "KVW": "LMDB write path"}[k], k))
+            parts.append("(* %s *)\n" % k)
             parts.extend(mine)
             parts.append("(* ---- supporting theorems of this backend model (invariants, ties to the source) ---- *)\n")
             seen = set()
@@ -89,7 +181,7 @@ def main():
             body += "\n(* ---- supporting theorems of this backend model (invariants, ties to the source, non-vacuity) ---- *)\n"
             body += "\n".join(b for b in support if b not in mine)
             body += "\nEnd %s.\n" % k
-            bodies.append("(* ================= %s ================= *)\n" % {"SQLM": "SQL backend (nostr_relay/storage/db.py)", "KVM": "LMDB query path (kv.py scanner, planner, matcher, executor)", "KVW": "LMDB write path (kv.py indexes, writer thread, garbage collector)"}[k] + body)
+            bodies.append("(* ================= %s ================= *)\n" % {"SQLM": "SQL backend (nostr_relay/storage/db.py)", "KVM": "LMDB query path (kv.py scanner, planner, matcher, executor)", "KVW": "LMDB write path (kv.py indexes, writer thread, garbage collector)", "RELAY": "connection handler (web.start_client)"}[k] + body)
         text += "\n".join(dict.fromkeys(requires)) + "\n\n" + "\n".join(bodies)
         open(os.path.join(COQ, "Props", pid + ".v"), "w").write(text)
         os.makedirs(os.path.join(COQ, pid), exist_ok=True)
